@@ -908,6 +908,22 @@ func (d *D) runQuestion(sc *core.Scenario, ctx *core.Ctx) *core.Violation {
 			continue // keep the number of cases down: both extra letters only alone or with the matching set
 		}
 		ans := letters(marked, n+2)
+		if multi && strings.Contains(ans, ",") {
+			// the marking is a SET of letters: the order in which the author wrote them, a
+			// repeated letter and the spacing after the comma do not change it
+			ls := strings.Split(ans, ", ")
+			switch (marked + n + form) % 4 {
+			case 1: // descending
+				for i, j := 0, len(ls)-1; i < j; i, j = i+1, j-1 {
+					ls[i], ls[j] = ls[j], ls[i]
+				}
+				ans = strings.Join(ls, ", ")
+			case 2: // rotated, no blank after the comma
+				ans = strings.Join(append(ls[1:], ls[0]), ",")
+			case 3: // one letter written twice
+				ans = strings.Join(append(ls, ls[0]), ", ")
+			}
+		}
 		line := "answer: " + ans
 		var sealedValue string
 		if sealedFM {
